@@ -235,6 +235,9 @@ func (v *viols) add(fp, msg string, detail interface{}) {
 
 func reqSummary(r *req) map[string]interface{} {
 	body := string(r.Body)
+	if r.Method == "PUT" {
+		body = fmt.Sprintf("<%d bytes>", len(r.Body))
+	}
 	if len(body) > 600 {
 		body = body[:600] + "...(truncated)"
 	}
@@ -585,7 +588,7 @@ func validateNonAPI(v *viols, cc *clauseCounter, r *req, f *scenarioFacts) {
 	if len(cands) == 0 {
 		o := sameHref[0]
 		v.add("action-method:"+o.Rel, fmt.Sprintf("%s action (href %s) was used with method %s; the API uses %s for it", o.Rel, o.Href, r.Method, relMethod[o.Rel]), reqSummary(r))
-		cands = sameHref[:1]
+		cands = sameHref
 	}
 	// headers: the same href may have been offered several times (re-requested batches); the request conforms
 	// when it carries all headers of at least one of those offers.  Prefer an offer of a response with a supported hash algorithm.
